@@ -23,6 +23,11 @@ What is mirrored from the Go code (`tlcp/handshake_client.go`, `tlcp/handshake_s
     expected and with no pending handshake bytes, handshake records refused while a
     ChangeCipherSpec is expected, application data refused during the handshake.
   * `readHandshake`: 4-byte header framing over the concatenation of handshake record payloads.
+  * WHICH BYTES of a received message are hashed: `readHandshake(hash)` hashes the bytes it
+    decoded; a message read with `nil` and added later goes through `transcriptMsg`, i.e.
+    `marshal()`, which returns the received bytes only when the decoder kept them (`raw`) —
+    flag `decodedKeepRaw`; otherwise the hash covers `World.reenc`, a re-encoding of the parsed
+    fields that forgets whatever the decoder skipped (`asMarshalled`).
 
 What is abstract: the *content* of honest messages (`World.say`: any function of the
 endpoint's history), the master secret each side derives (`World.master`), every decision the
@@ -207,13 +212,22 @@ structure TFlags where
   finFullCompare : Bool
   /-- the record version is compared only under `c.haveVers` -/
   versCheckedOnlyWhenHave : Bool
+  /-- a message that was RECEIVED and is added to the hash later by `transcriptMsg` enters it
+  with the bytes that were received: `transcriptMsg` hashes `marshal()`, and for every message
+  type handed to it `unmarshal` keeps its input in `raw` and `marshal` returns `raw` when set
+  (and nothing resets `raw` of a decoded message).  When `false` the hash covers a re-encoding
+  of the parsed fields (`World.reenc`). -/
+  decodedKeepRaw : Bool
+  /-- server `doFullHandshake` reads the client's Certificate / ClientKeyExchange with `nil`
+  and adds them with `transcriptMsg` (datagram stack) instead of reading them with the hash -/
+  sReadsViaMarshal : Bool
 deriving Repr, DecidableEq
 
 /-- the transcript operations the theorems need -/
 def TFlags.sound (f : TFlags) : Bool :=
   f.cHelloAdded && f.cServerHelloAdded && f.cReadsHashed && f.cWritesHashed && f.cFinReadNil &&
   f.cFinAddedAfter && f.sHelloAdded && f.sWritesHashed && f.sReadsHashed && f.sCVReadNil &&
-  f.sCVAddedAfter && f.sFinReadNil && f.sFinAddedAfter && f.finFullCompare
+  f.sCVAddedAfter && f.sFinReadNil && f.sFinAddedAfter && f.finFullCompare && f.decodedKeepRaw
 
 /-- the record-layer guards of the stream stack -/
 def TFlags.recordStrict (f : TFlags) : Bool :=
@@ -257,6 +271,10 @@ structure World (P : Prims) where
   say : Role → Nat → List Entry → Bytes
   master : Role → List Entry → P.Secret
   choice : Role → Query → List Entry → Bool
+  /-- what `marshal()` of a DECODED message produces when the decoder did not keep the received
+  bytes: a re-encoding of the parsed fields (any function of the message; it forgets whatever
+  the decoder skipped) -/
+  reenc : Role → Msg → Msg
 
 inductive Ctl where
   | cSH                    -- client waits for ServerHello
@@ -288,6 +306,10 @@ def hashT (P : Prims) (t : List Msg) : P.Digest := P.hash t.flatten
 
 section machine
 variable {P : Prims} (k : Codes) (f : TFlags) (W : World P)
+
+/-- what `transcriptMsg(m)` writes into the hash for a message `m` that was decoded from the
+wire: `m.marshal()` — the received bytes when `raw` was kept, else the re-encoding -/
+def asMarshalled (r : Role) (m : Msg) : Msg := if f.decodedKeepRaw then m else W.reenc r m
 
 /-- `writeHandshakeRecord(msg, transcript)` -/
 def HS.emit (h : HS P) (t : Nat) (hashed : Bool) : HS P :=
@@ -321,8 +343,16 @@ def HS.recvFinished (h : HS P) (ms : P.Secret) (m : Msg) (readNil addedAfter : B
   let expected := P.prf ms (!h.role.isClient) (hashT P before)
   if finMatches f.finFullCompare (mbody m) expected then
     some { h with log := h.log ++ [.msg false m],
-                  transcript := if addedAfter then before ++ [m] else before }
+                  transcript := if addedAfter then before ++ [asMarshalled f W h.role m] else before }
   else none
+
+/-- the server's reads of the client's Certificate / ClientKeyExchange: `readHandshake(hash)`
+(the received bytes are hashed) or `readHandshake(nil)` followed by `transcriptMsg` -/
+def HS.takeS (h : HS P) (m : Msg) : HS P :=
+  if f.sReadsViaMarshal then
+    let h1 := HS.take h m false
+    { h1 with transcript := if f.sReadsHashed then h1.transcript ++ [asMarshalled f W h.role m] else h1.transcript }
+  else HS.take h m f.sReadsHashed
 
 def HS.init (role : Role) : HS P :=
   match role with
@@ -362,7 +392,8 @@ def HS.onMsg (h : HS P) (m : Msg) : HS P :=
       let hello := match h.log with
         | .msg true c :: _ => [c]
         | _ => []
-      let h1 := { h1 with transcript := (if f.cHelloAdded then hello else []) ++ (if f.cServerHelloAdded then [m] else []) }
+      let h1 := { h1 with transcript := (if f.cHelloAdded then hello else []) ++
+        (if f.cServerHelloAdded then [asMarshalled f W .client m] else []) }
       if W.choice .client .resume h1.log then
         { h1 with ms := some (W.master .client h1.log), ctl := .cCCS true }
       else { h1 with ctl := .cCert }
@@ -389,7 +420,7 @@ def HS.onMsg (h : HS P) (m : Msg) : HS P :=
     | none => HS.fail h k.aInternal
     | some ms =>
       if t = k.tFin then
-        match HS.recvFinished f h ms m f.cFinReadNil f.cFinAddedAfter with
+        match HS.recvFinished f W h ms m f.cFinReadNil f.cFinAddedAfter with
         | none => HS.fail h k.aHandshakeFailure
         | some h1 =>
           if resumed then { HS.sendFinished k h1 ms f.cWritesHashed with ctl := .done }
@@ -398,7 +429,7 @@ def HS.onMsg (h : HS P) (m : Msg) : HS P :=
   | .sCH =>
     if t = k.tCH ∧ acceptable then
       let h1 := HS.take h m false
-      let h1 := { h1 with transcript := if f.sHelloAdded then [m] else [] }
+      let h1 := { h1 with transcript := if f.sHelloAdded then [asMarshalled f W .server m] else [] }
       if W.choice .server .resume h1.log then
         let h2 := HS.emit W h1 k.tSH f.sWritesHashed
         let ms := W.master .server h2.log
@@ -406,11 +437,11 @@ def HS.onMsg (h : HS P) (m : Msg) : HS P :=
       else HS.serverFlight k f W h1
     else HS.fail h k.aUnexpected
   | .sCert =>
-    if t = k.tCert ∧ acceptable then { HS.take h m f.sReadsHashed with ctl := .sCKX true }
+    if t = k.tCert ∧ acceptable then { HS.takeS f W h m with ctl := .sCKX true }
     else HS.fail h k.aUnexpected
   | .sCKX requested =>
     if t = k.tCKX ∧ acceptable then
-      let h1 := HS.take h m f.sReadsHashed
+      let h1 := HS.takeS f W h m
       let h1 := { h1 with ms := some (W.master .server h1.log) }
       if requested && W.choice .server .expectCertVerify h1.log then { h1 with ctl := .sCV }
       else { h1 with ctl := .sCCS false }
@@ -419,7 +450,7 @@ def HS.onMsg (h : HS P) (m : Msg) : HS P :=
     if t = k.tCV ∧ acceptable then
       -- read with nil, added after the signature check
       let h1 := HS.take h m (!f.sCVReadNil)
-      let h1 := { h1 with transcript := if f.sCVAddedAfter then h1.transcript ++ [m] else h1.transcript }
+      let h1 := { h1 with transcript := if f.sCVAddedAfter then h1.transcript ++ [asMarshalled f W .server m] else h1.transcript }
       { h1 with ctl := .sCCS false }
     else HS.fail h k.aUnexpected
   | .sFin resumed =>
@@ -427,7 +458,7 @@ def HS.onMsg (h : HS P) (m : Msg) : HS P :=
     | none => HS.fail h k.aInternal
     | some ms =>
       if t = k.tFin then
-        match HS.recvFinished f h ms m f.sFinReadNil f.sFinAddedAfter with
+        match HS.recvFinished f W h ms m f.sFinReadNil f.sFinAddedAfter with
         | none => HS.fail h k.aHandshakeFailure
         | some h1 =>
           if resumed then { h1 with ctl := .done }
